@@ -67,3 +67,9 @@ func VerifRequestDecoderIDs() []uint32 {
 	}
 	return out
 }
+
+// VerifMarshal returns the plaintext frame of p (what Connection.Send encrypts).
+func VerifMarshal(p Packet) []byte { return p.marshal() }
+
+// VerifNonce returns the nonce NewPacket drew for p.
+func VerifNonce(p Packet) [32]byte { return p.nonce }
